@@ -45,7 +45,7 @@ func genHOp(kinds []string) *rapid.Generator[HOp] {
 
 func genHeapCase(pos bool) func(t *rapid.T) HeapCase {
 	return func(t *rapid.T) HeapCase {
-		c := HeapCase{Desc: rapid.Bool().Draw(t, "desc")}
+		c := HeapCase{Desc: rapid.Bool().Draw(t, "desc"), Mag: rapid.IntRange(0, 2).Draw(t, "mag") == 0}
 		kinds := kindsPos
 		if pos {
 			c.Mode = "G"
